@@ -166,6 +166,17 @@ impl<V: MetricsRsVersion + ?Sized> MetricRecorder<V> {
     }
 }
 
+#[cfg(all(metrique_verif, feature = "metrics-rs-024"))]
+impl MetricRecorder<dyn metrics_024::Recorder> {
+    /// Verification accessor: the histogram cell registered (or now created) for `key`.
+    pub fn verif_histogram(
+        &self,
+        key: &metrics_024::Key,
+    ) -> Arc<crate::metrics_histogram::Histogram> {
+        self.0.registry.get_or_create_histogram(key, Clone::clone)
+    }
+}
+
 impl<V: MetricsRsVersion + ?Sized> Default for MetricRecorder<V> {
     fn default() -> Self {
         Self::new()
